@@ -14,6 +14,9 @@ __all__ = ['CutoutImage']
 
 def _overlap_slices(large_array_shape, small_array_shape, position,
                     mode='partial'):
+    # overlap_slices compares the shape with a tuple, which is ambiguous
+    # for a numpy array (e.g., from as_pair)
+    small_array_shape = tuple(int(n) for n in np.atleast_1d(small_array_shape))
     slc_lg, slc_sm = overlap_slices(large_array_shape, small_array_shape,
                                     position, mode=mode)
 
